@@ -8,8 +8,17 @@ partial def admitsMany (env : Env) (fuel : Nat) : Ty → Bool
   | .basic _ bk => bk != .none
   | .time _ => true
   | .arr n e => if n < 0 then true else n > 0 && admitsMany env fuel e
-  -- a map over a key type with a single value has a single entry whatever the number of insertions
-  | .map k e => admitsMany env fuel k || admitsMany env fuel e
+  -- a map receives 40 to 49 insertions: over a key type with a few values (an enum, a boolean) the
+  -- key set is the whole type almost surely (4 keys: all present but once in 25 000 maps), so only
+  -- the elements vary; a large key type varies by itself
+  | .map k e =>
+    let smallKeys := match k with
+      | .basic _ .bool => true
+      | .ref q => (match env.find? q with
+        | some d => (match d.body with | .enum _ _ _ _ => true | .named (.basic _ .bool) => true | _ => false)
+        | none => false)
+      | _ => false
+    (!smallKeys && admitsMany env fuel k) || admitsMany env fuel e
   | .ptr e => admitsMany env fuel e
   | .ref q =>
     if fuel == 0 then false else
